@@ -171,7 +171,7 @@ fn build_json(b: &Build, pack_ordinal: &mut u64, fails: &mut Vec<u64>) -> Value 
         .iter()
         .map(|s| match s {
             Step::StartContainer { detached_ports, inner } => json!({"start_container": {
-                "cfg": {"entrypoint": null, "command": ["serve"], "env": [["PORT", "8080"]], "ports": if *detached_ports { json!([8080, 9090]) } else { json!([8080]) }, "mounts": []},
+                "cfg": {"entrypoint": null, "command": ["serve"], "env": [["PORT", "8080"]], "ports": if *detached_ports { json!([8080, 9090]) } else if inner.iter().any(|c| matches!(c, CStep::Port)) { json!([8080]) } else { json!([]) }, "mounts": []},
                 "inner": inner.iter().map(|c| match c {
                     CStep::LogsNow => json!("logs_now"),
                     CStep::LogsWait => json!("logs_wait"),
@@ -193,7 +193,9 @@ fn scenario_json(s: &Scenario) -> (Value, String) {
     let mut ord = 0;
     let mut fails = vec![];
     let b = build_json(&s.build, &mut ord, &mut fails);
-    (json!({"build": b, "fail_at": s.fail_at}), fails.iter().map(|n| n.to_string()).collect::<Vec<_>>().join(","))
+    // exit code / message flavour of the injected failure: varies with the fault position and the tree
+    let flavour = (s.fail_at.unwrap_or(0) as usize * 7 + ord as usize * 3 + b.to_string().len()) % 25;
+    (json!({"build": b, "fail_at": s.fail_at, "fail_flavour": flavour}), fails.iter().map(|n| n.to_string()).collect::<Vec<_>>().join(","))
 }
 
 fn case_json(s: &Scenario) -> Value {
